@@ -84,18 +84,42 @@ theorem deE_of_serE (X : Ext) : ∀ (es : List (Val × Val)) (ss : List (SVal ×
     simp [deE, normE, de, hashable, de_of_ser X v _ h1, deE_of_serE X es _ h2]
 end
 
-/-- **de_ser**: every serializable value tree, serialized by `serialize.rs` and deserialized by
-`KValueVisitor`, is the documented normal form of the tree (lists → tuples, keys → strings). -/
-theorem de_ser (X : Ext) (v : Val) (h : serializable v = true) :
-    (ser X v).bind de = some (norm X v) := by
+/-- the code (`serW`) is the mapping `ser` within the writer's nesting limit, and an error beyond -/
+theorem serW_of_le (X : Ext) (v : Val) (h : depth v ≤ writerDepthLimit) : serW X v = ser X v := by
+  simp [serW, h]
+
+theorem serW_some_ser (X : Ext) (v : Val) (s : SVal) (h : serW X v = some s) : ser X v = some s := by
+  unfold serW at h
+  split at h
+  · exact h
+  · cases h
+
+/-- `serialize.rs` succeeds exactly on the serializable trees nested at most 128 levels deep -/
+theorem serW_isSome (X : Ext) (v : Val) :
+    (serW X v).isSome = (serializable v && decide (depth v ≤ writerDepthLimit)) := by
+  unfold serW
+  split <;> simp_all [ser_isSome]
+
+/-- deeper than the writer's limit is an explicit error (not a stack overflow, not a truncation) -/
+theorem serW_too_deep_is_error (X : Ext) (v : Val) (h : writerDepthLimit < depth v) : serW X v = none := by
+  have : ¬ depth v ≤ writerDepthLimit := by omega
+  simp [serW, this]
+
+/-- **de_ser**: every serializable value tree (nested at most 128 levels, the writer's limit),
+serialized by `serialize.rs` and deserialized by `KValueVisitor`, is the documented normal form of
+the tree (lists → tuples, keys → strings). -/
+theorem de_ser (X : Ext) (v : Val) (h : serializable v = true) (hd : depth v ≤ writerDepthLimit) :
+    (serW X v).bind de = some (norm X v) := by
+  rw [serW_of_le X v hd]
   have hs := ser_isSome X v
   rw [h] at hs
   obtain ⟨s, hs⟩ := Option.isSome_iff_exists.mp hs
   simp [hs, de_of_ser X v s hs]
 
+example : depth (.map [(.num (.i 1), .list [.null, .str [97]]), (.bool true, .num (.i (-5)))]) ≤ writerDepthLimit := by decide
 example : serializable (.map [(.num (.i 1), .list [.null, .str [97]]), (.bool true, .num (.i (-5)))]) = true := by decide
 example :
-    (ser X0 (.map [(.num (.i 1), .list [.null, .str [97]]), (.str [49], .num (.i (-5)))])).bind de
+    (serW X0 (.map [(.num (.i 1), .list [.null, .str [97]]), (.str [49], .num (.i (-5)))])).bind de
       = some (.map [(.str [49], .num (.i (-5)))]) := by decide
 
 /-- an unserializable tree is rejected (the `other => Err(…)` arm), it is not silently altered -/
@@ -172,12 +196,54 @@ theorem serializableE_norm (X : Ext) : ∀ es : List (Val × Val), serializableE
     · exact serializableE_norm X es h.2 e he
 end
 
-/-- **second_trip_id**: a second round trip (of the result of the first) is the identity. -/
-theorem second_trip_id (X : Ext) (v : Val) (h : serializable v = true) :
-    (ser X (norm X v)).bind de = some (norm X v) := by
-  rw [de_ser X (norm X v) (serializable_norm X v h), norm_idem]
+mutual
+/-- The normal form is never deeper than the value: if the first trip stays within a reader's
+nesting limit, so does the second. -/
+theorem depth_norm_le (X : Ext) : ∀ v : Val, depth (norm X v) ≤ depth v
+  | .null => Nat.le_refl _
+  | .bool _ => Nat.le_refl _
+  | .num _ => Nat.le_refl _
+  | .str _ => Nat.le_refl _
+  | .range _ _ => Nat.le_refl _
+  | .list xs => by simp only [norm, depth]; exact Nat.succ_le_succ (depthL_norm_le X xs)
+  | .tuple xs => by simp only [norm, depth]; exact Nat.succ_le_succ (depthL_norm_le X xs)
+  | .map es => by
+    simp only [norm, depth]
+    apply Nat.succ_le_succ
+    rw [depthE_le_iff]
+    intro e he
+    exact (buildMap_pres (fun _ => True) (fun w => depth w ≤ depthE es) _
+      (fun e he => ⟨trivial, depthE_norm_le X es e he⟩) e he).2
+theorem depthL_norm_le (X : Ext) : ∀ xs : List Val, depthL (normL X xs) ≤ depthL xs
+  | [] => Nat.le_refl _
+  | x :: xs => by
+    simp only [normL, depthL]
+    have h1 := depth_norm_le X x
+    have h2 := depthL_norm_le X xs
+    omega
+theorem depthE_norm_le (X : Ext) : ∀ es : List (Val × Val), ∀ e ∈ normE X es, depth e.2 ≤ depthE es
+  | [], e, he => by simp [normE] at he
+  | (k, v) :: es, e, he => by
+    simp only [normE, List.mem_cons] at he
+    simp only [depthE]
+    rcases he with he | he
+    · subst he
+      have := depth_norm_le X v
+      simp only
+      omega
+    · have := depthE_norm_le X es e he
+      omega
+end
 
-example : (ser X0 (norm X0 (.list [.map [(.num (.i 7), .list [])]]))).bind de
+example : depth (.list [.map [(.str [97], .tuple [.null])], .num (.i 1)]) = 3 := by decide
+
+/-- **second_trip_id**: a second round trip (of the result of the first) is the identity; it is
+defined whenever the first is, because the normal form is never deeper than the value. -/
+theorem second_trip_id (X : Ext) (v : Val) (h : serializable v = true) (hd : depth v ≤ writerDepthLimit) :
+    (serW X (norm X v)).bind de = some (norm X v) := by
+  rw [de_ser X (norm X v) (serializable_norm X v h) (Nat.le_trans (depth_norm_le X v) hd), norm_idem]
+
+example : (serW X0 (norm X0 (.list [.map [(.num (.i 7), .list [])]]))).bind de
     = some (norm X0 (.list [.map [(.num (.i 7), .list [])]])) := by decide
 
 mutual
@@ -379,8 +445,10 @@ end
 
 /-- **json_finite**: with finite floats only, JSON's "non-finite → null" contract changes nothing,
 so the JSON round trip is `norm` as well. -/
-theorem json_finite (X : Ext) (v : Val) (h : serializable v = true) (hf : allFinite v = true) :
-    ((ser X v).map jsonLayer).bind de = some (norm X v) := by
+theorem json_finite (X : Ext) (v : Val) (h : serializable v = true) (hd : depth v ≤ writerDepthLimit)
+    (hf : allFinite v = true) :
+    ((serW X v).map jsonLayer).bind de = some (norm X v) := by
+  rw [serW_of_le X v hd]
   have hs := ser_isSome X v
   rw [h] at hs
   obtain ⟨s, hs⟩ := Option.isSome_iff_exists.mp hs
@@ -785,46 +853,6 @@ theorem toKoto_error_iff (X : Ext) (x : RVal) : toKoto X x = none ↔ intsFit x 
 
 /-! ## Nesting depth, integer literals beyond 64 bits, aliasing -/
 
-mutual
-/-- The normal form is never deeper than the value: if the first trip stays within a reader's
-nesting limit, so does the second. -/
-theorem depth_norm_le (X : Ext) : ∀ v : Val, depth (norm X v) ≤ depth v
-  | .null => Nat.le_refl _
-  | .bool _ => Nat.le_refl _
-  | .num _ => Nat.le_refl _
-  | .str _ => Nat.le_refl _
-  | .range _ _ => Nat.le_refl _
-  | .list xs => by simp only [norm, depth]; exact Nat.succ_le_succ (depthL_norm_le X xs)
-  | .tuple xs => by simp only [norm, depth]; exact Nat.succ_le_succ (depthL_norm_le X xs)
-  | .map es => by
-    simp only [norm, depth]
-    apply Nat.succ_le_succ
-    rw [depthE_le_iff]
-    intro e he
-    exact (buildMap_pres (fun _ => True) (fun w => depth w ≤ depthE es) _
-      (fun e he => ⟨trivial, depthE_norm_le X es e he⟩) e he).2
-theorem depthL_norm_le (X : Ext) : ∀ xs : List Val, depthL (normL X xs) ≤ depthL xs
-  | [] => Nat.le_refl _
-  | x :: xs => by
-    simp only [normL, depthL]
-    have h1 := depth_norm_le X x
-    have h2 := depthL_norm_le X xs
-    omega
-theorem depthE_norm_le (X : Ext) : ∀ es : List (Val × Val), ∀ e ∈ normE X es, depth e.2 ≤ depthE es
-  | [], e, he => by simp [normE] at he
-  | (k, v) :: es, e, he => by
-    simp only [normE, List.mem_cons] at he
-    simp only [depthE]
-    rcases he with he | he
-    · subst he
-      have := depth_norm_le X v
-      simp only
-      omega
-    · have := depthE_norm_le X es e he
-      omega
-end
-
-example : depth (.list [.map [(.str [97], .tuple [.null])], .num (.i 1)]) = 3 := by decide
 
 /-- **json_int_error_iff**: of the integer literals outside `i64`, JSON rejects exactly those that
 still fit `u64`; the others arrive as floats and are accepted (finding F-C20-6 — the negation of
@@ -877,6 +905,8 @@ theorem serG_cycle_is_error (g : Graph) (C : Nat → Prop) (hC : ∀ i, C i → 
     · rfl
     · simp only [hn]
       have ih := serG_cycle_is_error g C hC fuel (i :: path) j hj
+      split
+      · rfl
       rw [Option.map_eq_none_iff]
       apply allSome_none_of_mem
       exact List.mem_map.mpr ⟨.ref j, hmem, by simp [ih]⟩
@@ -884,6 +914,18 @@ theorem serG_cycle_is_error (g : Graph) (C : Nat → Prop) (hC : ∀ i, C i → 
 /-- a list that contains itself, and a two-container cycle through a map -/
 example : serG [⟨false, [.leaf 1, .ref 0]⟩] 10 [] 0 = none := by decide
 example : serG [⟨false, [.ref 1]⟩, ⟨true, [.leaf 2, .ref 0]⟩] 10 [] 0 = none := by decide
+/-- the nesting limit applies to graphs as well: whatever the graph, nothing is serialized below 128
+containers -/
+theorem serG_too_deep_is_error (g : Graph) (fuel : Nat) (path : List Nat) (i : Nat)
+    (h : writerDepthLimit ≤ path.length) : serG g fuel path i = none := by
+  cases fuel with
+  | zero => rfl
+  | succ n =>
+    simp only [serG]
+    split
+    · rfl
+    · simp [h]
+
 /-- sharing without a cycle is fine: the same list twice (and once more one level down) serializes as
 its unfolding -/
 example : serG [⟨false, [.ref 1, .ref 2, .ref 1]⟩, ⟨false, [.leaf 1]⟩, ⟨true, [.ref 1]⟩] 4 [] 0
